@@ -532,9 +532,24 @@ macro_rules! public_tag_grid {
                 if ws.is_null() || ws.tag() != tag & low || ws.verif_addr() != addr || !ws.ptr_eq(s.downgrade()) || !ws.ptr_eq(w.snapshot(&g)) {
                     report("C11", "C11|timestamp-visible", format!("WeakSnapshot at residue {}: tag {} addr {:#x}", verif::global_epoch() % 16, ws.tag(), ws.verif_addr()));
                 }
-                let c = s.counted();
+                let mut c = s.counted();
                 if !c.ptr_eq(&t) || c.tag() != tag & low {
                     report("C11", "C11|timestamp-visible", "counted() of a loaded Snapshot is not ptr_eq the stored Rc".into());
+                }
+                // every way of dereferencing yields the same address (compared, not accessed)
+                let a_ref = s.as_ref().map_or(0, |x| x as *const $ty as usize);
+                let a_mut = unsafe { s.as_mut() }.map_or(0, |x| x as *mut $ty as usize);
+                let a_dm = unsafe { s.deref_mut() } as *mut $ty as usize;
+                let a_d = unsafe { s.deref() } as *const $ty as usize;
+                let r_ref = c.as_ref().map_or(0, |x| x as *const $ty as usize);
+                let r_mut = unsafe { c.as_mut() }.map_or(0, |x| x as *mut $ty as usize);
+                let r_dm = unsafe { c.deref_mut() } as *mut $ty as usize;
+                if [a_mut, a_dm, a_d, r_ref, r_mut, r_dm].iter().any(|x| *x != a_ref) || a_ref == 0 || a_ref >> 60 != 0 {
+                    report(
+                        "C11",
+                        "C11|dereference-sees-timestamp-or-tag",
+                        format!("stamp {} tag {}: as_ref {:#x} as_mut {:#x} deref_mut {:#x} deref {:#x}; Rc: as_ref {:#x} as_mut {:#x} deref_mut {:#x}", s.verif_high_tag(), tag, a_ref, a_mut, a_dm, a_d, r_ref, r_mut, r_dm),
+                    );
                 }
                 let up = ws.upgrade();
                 if up.map_or(true, |u| !u.ptr_eq(s)) {
@@ -1049,14 +1064,20 @@ fn lnode() -> Rc<LNode> {
     Rc::new(LNode { drops: &L_DROPS, last_drop_epoch: &L_LAST, next: [AtomicRc::null(), AtomicRc::null()] })
 }
 
-fn build_chain(n: usize, hold_at: Option<usize>) -> (Rc<LNode>, Option<Rc<LNode>>) {
+/// `via`: 0 = all links through edge 0, 1 = through edge 1 (edge 0 stays null), 2 = alternating
+fn build_chain(n: usize, hold_at: Option<usize>, via: usize) -> (Rc<LNode>, Option<Rc<LNode>>) {
     // built from the tail so that no recursion happens here
     let g = circ::cs();
     let mut head: Rc<LNode> = Rc::null();
     let mut held = None;
     for i in (0..n).rev() {
         let nd = lnode();
-        nd.as_ref().unwrap().next[0].store(head, SeqCst, &g);
+        let k = match via {
+            0 => 0,
+            1 => 1,
+            _ => i % 2,
+        };
+        nd.as_ref().unwrap().next[k].store(head, SeqCst, &g);
         if hold_at == Some(i) {
             held = Some(nd.clone());
         }
@@ -1098,6 +1119,11 @@ pub fn c06(_seed: u64, thorough: bool) -> SeqOut {
     let mut worst = Counts::default();
     let mut max_ratio = 0f64;
     let run = |out: &mut SeqOut, worst: &mut Counts, max_ratio: &mut f64, shape: &str, n: usize, age: usize, residue: usize, hold: Option<usize>, tree: Option<(u32, usize)>| {
+        let via = match shape {
+            "right-spine" => 1,
+            "zig-zag" => 2,
+            _ => 0,
+        };
         L_DROPS.store(0, SeqCst);
         let (head, held, total) = match tree {
             Some((d, a)) => {
@@ -1105,7 +1131,7 @@ pub fn c06(_seed: u64, thorough: bool) -> SeqOut {
                 (r, None, t)
             }
             None => {
-                let (h, held) = build_chain(n, hold);
+                let (h, held) = build_chain(n, hold, via);
                 (h, held, n)
             }
         };
@@ -1150,7 +1176,8 @@ pub fn c06(_seed: u64, thorough: bool) -> SeqOut {
             let mut len = 0;
             while let Some(nd) = cur.as_ref() {
                 len += 1;
-                cur = nd.next[0].load(SeqCst, &g);
+                let a = nd.next[0].load(SeqCst, &g);
+                cur = if a.is_null() { nd.next[1].load(SeqCst, &g) } else { a };
             }
             if len != total - hold.unwrap() {
                 report("C06", "C06|survivor-chain-broken", format!("suffix behind the held node has {} nodes, expected {}", len, total - hold.unwrap()));
@@ -1195,6 +1222,31 @@ pub fn c06(_seed: u64, thorough: bool) -> SeqOut {
                 run(&mut out, &mut worst, &mut max_ratio, "chain-held", n, 8, r, Some(hold), None);
             }
         }
+    }
+    // held node around the recursion cap
+    for &n in &[1500usize, 3000] {
+        for hold in [1022usize, 1023, 1024, 1025, 1026, 2047, 2048, 2049, 2050] {
+            if hold >= n {
+                continue;
+            }
+            for r in 0..16usize {
+                if !thorough && r % 2 == 1 && hold > 1026 {
+                    continue;
+                }
+                run(&mut out, &mut worst, &mut max_ratio, "chain-held", n, 8, r, Some(hold), None);
+            }
+        }
+    }
+    // chains that hang on the second edge / alternate (null edges before the live one)
+    for shape in ["right-spine", "zig-zag"] {
+        for &n in &[50usize, 800, 3000] {
+            for &r in &[0usize, 3, 6, 9, 12, 15] {
+                for &age in &[3usize, 8] {
+                    run(&mut out, &mut worst, &mut max_ratio, shape, n, age, r, None, None);
+                }
+            }
+        }
+        run(&mut out, &mut worst, &mut max_ratio, shape, 1500, 8, 5, Some(1024), None);
     }
     // trees
     let trees: Vec<(u32, usize)> = if thorough { vec![(3, 2), (10, 2), (14, 2), (17, 2), (20, 1), (1, 2)] } else { vec![(3, 2), (10, 2), (13, 2), (20, 1)] };
